@@ -328,3 +328,20 @@ Theorem mirrored_history_step tanh64
 Proof.
   intros Ha Hb Ha' Hb' E Hm. apply momentum_mirror_step; try assumption. apply mirrored_move; assumption.
 Qed.
+
+(** ** The premises hold for the mid-prices an agent reads from a book satisfying the invariant *)
+From Bourse Require Import Model.Map Model.Side Model.Book Model.Env Proofs.Refine Proofs.Views.
+
+Lemma mid_f64_is_half e a b : nth_error (en_market e) a = Some b -> mid_f64 e a = Ok (h (mid_price_x2 b)).
+Proof. intros H. unfold mid_f64. rewrite H. reflexivity. Qed.
+
+Lemma mid_price_small b : InvQ None b -> (Z.of_N (mid_price_x2 b) < 2 ^ 52)%Z.
+Proof.
+  intros Hinv. unfold mid_price_x2, bid_ask.
+  assert (Hb : N.le (best_price Bid (b_bid b)) MAXP) by (unfold best_price, kp_of, MAXP; lia).
+  assert (Ha : N.le (best_price Ask (b_ask b)) MAXP).
+  { unfold best_price, kp_of, sd_best_kp. pose proof (InvQ_el_ok b Ask Hinv) as Hel. cbn [get_side] in Hel.
+    destruct (sd_orders (b_ask b)) as [|[[kp kt] id] t]; [unfold MAXP; lia|].
+    inversion Hel as [|? ? (e & _ & Hk & Hp) _]; subst. cbn [fst] in *. rewrite Hk. exact Hp. }
+  unfold MAXP in *. change (2 ^ 52)%Z with 4503599627370496%Z. lia.
+Qed.
